@@ -5,6 +5,7 @@
 import CedarProofs.Roundtrip
 import CedarProofs.CodecStr
 import CedarProofs.Incremental
+import CedarProofs.CodecLarge
 
 namespace Cedar.C01
 
@@ -179,6 +180,29 @@ theorem typed_frame_accepted (s : Stream) (data : Bytes) (flag : Nat)
         split <;> omega
       rw [if_neg h2, if_neg hctr]
       exact ⟨_, _, rfl⟩
+
+/-- **typed_strbytes_any_length**: `PutStringBytes` of a NUL-free string of ANY length — the branch
+    for strings that fit a frame and the ≥ 1 MiB branch that writes the length prefix, streams the
+    bytes and then the NUL through two `PutBytes` calls — puts exactly the reference encoding on the
+    wire (on an encrypting stream: 8-byte length = len+1, the bytes, the NUL), after whatever was
+    buffered, however the frames are cut. -/
+theorem typed_strbytes_any_length (enc : Bool) (buf s : Bytes) (hnz : ∀ b ∈ s, b ≠ 0) (hlen : s.length + 1 < 2^64) :
+    wireBytes (putStringBytes enc buf s) = buf ++ Spec.enc enc (.str s) :=
+  wireBytes_putStringBytes enc buf s hnz hlen
+
+/-- **typed_bytes_any_length**: `PutBytes` of any length (split across frames above the frame
+    payload limit) puts exactly the bytes on the wire after whatever was buffered. -/
+theorem typed_bytes_any_length (enc : Bool) (buf data : Bytes) :
+    wireBytes (putBytes enc buf data) = buf ++ data :=
+  wireBytes_putBytes enc buf data
+
+/-- **typed_rest_any_length**: `GetRemainingBytes` returns exactly the bytes of the message not yet
+    consumed — any number of them, in any cut into frames (empty frames included) — and leaves the
+    message exhausted; a connection that ends before the end-of-message frame is an error. -/
+theorem typed_rest_any_length (d : Dec) :
+    (∀ B, d.pending = some B → ∃ d', d.getRemaining = .ok (B, d') ∧ d'.pending = some []) ∧
+    (d.pending = none → d.getRemaining = .error .eof) :=
+  ⟨fun B h => getRemaining_spec d B h, getRemaining_truncated d⟩
 
 /-! Non-vacuity (tests, not the claim): the band around the limit. -/
 example : ((({} : Stream).setKey 1 ⟨0, []⟩).sendFrame (List.replicate 10 0) 1).isOk = true := by decide
